@@ -11,7 +11,9 @@ pub mod c11;
 pub mod c12;
 pub mod c13;
 pub mod c14;
+pub mod c15;
 pub mod c16;
+pub mod c17;
 pub mod c18;
 pub mod c19;
 pub mod fmt;
@@ -35,7 +37,9 @@ pub fn registry() -> Vec<PropDef> {
         PropDef { id: "C12", run: c12::run, replay: c12::replay },
         PropDef { id: "C13", run: c13::run, replay: c13::replay },
         PropDef { id: "C14", run: c14::run, replay: c14::replay },
+        PropDef { id: "C15", run: c15::run, replay: c15::replay },
         PropDef { id: "C16", run: c16::run, replay: c16::replay },
+        PropDef { id: "C17", run: c17::run, replay: c17::replay },
         PropDef { id: "C18", run: c18::run, replay: c18::replay },
         PropDef { id: "C19", run: c19::run, replay: c19::replay },
     ]
